@@ -41,6 +41,11 @@ func init() {
 	for i, m := range Methods {
 		methodIndexMap[m] = 1 << i
 	}
+
+	// 预先生成所有的组合，之后 methodIndexes 为只读，与路由的创建顺序无关，多个路由之间也不存在竞争。
+	for i := 0; i < 1<<len(Methods); i++ {
+		buildMethodIndexes(i)
+	}
 }
 
 type methodIndexEntity struct {
